@@ -1482,7 +1482,8 @@ fn race_case(rng: &mut Rng, out: &mut Out, ctl: &Arc<Ctl>, wl: &Arc<WriteLog>, d
     // deferred: the generation being read is a TTL-only one (update_ttl on an offloaded value), whose
     // bytes still live in its predecessor's extent; the pin has to protect THAT extent
     let deferred = rng.chance(1, 4);
-    let store = match FeoxStore::builder().hash_bits(6).enable_ttl(deferred).no_memory_limit()
+    let ttl = deferred || rng.chance(1, 2);
+    let store = match FeoxStore::builder().hash_bits(6).enable_ttl(ttl).no_memory_limit()
         .device_path(path.clone()).file_size(blocks * BS).enable_caching(cache).build() {
         Ok(s) => Arc::new(s),
         Err(_) => return,
@@ -1686,6 +1687,28 @@ fn race_case(rng: &mut Rng, out: &mut Out, ctl: &Arc<Ctl>, wl: &Arc<WriteLog>, d
             bad = Some(format!("the second key reads {:?} after the race, expected {:?}", got.map(|x| x.len()), mate_now.as_ref().map(|x| x.len())));
         }
     }
+    // a TTL change on the survivor (its value offloaded by the flush above) BEFORE anything reads the key again:
+    // whatever the race left behind in the cache - a late fill tagged with the old generation, say - the value
+    // stays what it was, now and after a reopen
+    let mut reopen_expect: Option<Vec<u8>> = None;
+    let survivor: Option<&Vec<u8>> = match (mutated, delete) { (true, false) => Some(&v2), (false, _) => Some(&v1), _ => None };
+    if let (true, true, Some(want)) = (ttl, bad.is_none(), survivor) {
+        if store.update_ttl(&key, 3600).is_ok() {
+            out.count("race epilogue: TTL change on the survivor");
+            let after = store.get(&key).ok();
+            if after.as_deref() != Some(&want[..]) {
+                out.failures.push(format!("C16\tafter a read / replace race (cache {}) and a flush, update_ttl changed what the key reads: {} bytes starting {:02x} expected, {:?} returned\t-",
+                    if cache { "on" } else { "off" }, want.len(), want.first().copied().unwrap_or(0), after.as_ref().map(|v| (v.len(), v.first().copied().unwrap_or(0)))));
+                out.failures.push("C11\ta TTL-only update after a read / replace race did not keep the value intact\t-".into());
+            } else {
+                let st = store.clone();
+                let flushed = Arc::new(std::sync::atomic::AtomicBool::new(false));
+                let fl2 = flushed.clone();
+                let _ = with_watchdog(move || { if st.flush().is_ok() { fl2.store(true, O::SeqCst); } });
+                if flushed.load(O::SeqCst) { reopen_expect = Some(want.clone()); }
+            }
+        }
+    }
     let fin = store.get(&key);
     let fin_ok = match (&fin, mutated, delete) {
         (Ok(v), true, false) => v == &v2,
@@ -1703,6 +1726,18 @@ fn race_case(rng: &mut Rng, out: &mut Out, ctl: &Arc<Ctl>, wl: &Arc<WriteLog>, d
         out.failures.push(format!("C08\t{}\t{}", b, keep));
     }
     drop(store);
+    if let Some(want) = reopen_expect {
+        feoxdb::verif::clock::unpin();
+        if let Ok(st2) = FeoxStore::builder().hash_bits(6).enable_ttl(true).no_memory_limit().device_path(path.clone()).enable_caching(cache).build() {
+            let got = st2.get(&key).ok();
+            if got.as_deref() != Some(&want[..]) {
+                out.failures.push(format!("C16\tafter a read / replace race, a TTL change, a flush and a reopen the key reads {:?}, it held {} bytes starting {:02x}\t-",
+                    got.as_ref().map(|v| (v.len(), v.first().copied().unwrap_or(0))), want.len(), want.first().copied().unwrap_or(0)));
+                out.failures.push("C11\ta TTL-only update after a read / replace race did not survive the restart with its value\t-".into());
+            }
+            drop(st2);
+        }
+    }
     let _ = std::fs::remove_file(&path);
 }
 
